@@ -75,3 +75,6 @@ pub use crate::util::metadata::mark_bit::MarkState;
 /// `policy::immix` block / line types (the `policy` module is private to the crate).
 pub use crate::policy::immix::block::{Block, BlockState};
 pub use crate::policy::immix::line::Line;
+
+/// `util::metadata::side_metadata::{layout, spec_defs}`: the core spec tables and the reserved-range computation.
+pub use crate::util::metadata::side_metadata::verif_hooks_layout as side_layout;
